@@ -10,8 +10,19 @@ from .expressions import TEXT, POS, Ref, visit
 
 
 def generate_source_code(docstring, parsed):
+    # The names that the grammar (or one of its ancestors) defines itself take
+    # precedence over the names of the built-in expression constructors.
+    user_names = set()
+    ancestor = parsed
+    while ancestor is not None:
+        user_names.update(x.name for x in ancestor.body if getattr(x, 'name', None))
+        ancestor = ancestor.extends
+
     # Convert the parse tree into a list of parsing expressions.
-    nodes = parser.transform(parsed.body, _create_parsing_expression)
+    nodes = parser.transform(
+        parsed.body,
+        lambda tree: _create_parsing_expression(tree, user_names),
+    )
 
     out = _CodeBuilder()
     out.add_docstring(docstring)
@@ -321,7 +332,7 @@ def _update_rule_references(rules, extends):
     visit(rules, check_refs)
 
 
-def _create_parsing_expression(tree):
+def _create_parsing_expression(tree, user_names=()):
     if isinstance(tree, parser.StringLiteral):
         ignore_case = tree.value.endswith(('i', 'I'))
         value = ast.literal_eval(tree.value[:-1] if ignore_case else tree.value)
@@ -375,7 +386,8 @@ def _create_parsing_expression(tree):
 
     if isinstance(tree, parser.Postfix) and isinstance(tree.operator, parser.ArgList):
         left, args = tree.left, tree.operator.args
-        if isinstance(left, ex.Ref) and hasattr(ex, left.name):
+        if (isinstance(left, ex.Ref) and hasattr(ex, left.name)
+                and left.name not in user_names):
             def unwrap(x):
                 return eval(x.source_code) if isinstance(x, ex.PythonExpression) else x
             return getattr(ex, left.name)(
